@@ -29,6 +29,7 @@ Reading of the statements below.
 -/
 import AutomataVerif.Proofs.CtorNth
 import AutomataVerif.Proofs.CtorPrefix
+import AutomataVerif.Proofs.CtorKMPDfa
 
 namespace AV.Props.C15
 open AV AV.Ctor
@@ -419,5 +420,80 @@ theorem C15_from_prefix_minimal (syms p : List α) (hp : ∀ c ∈ p, c ∈ syms
 example : Builds (fromPrefix ['a', 'b'] ['a', 'a', 'b'] false true) ['a', 'b']
     (fun w => ['a', 'a', 'b'] <+: w ↔ false = true) :=
   C15_from_prefix _ _ (by decide) _ _
+
+/-! ## from_substring, from_suffix (Knuth–Morris–Pratt) -/
+
+/-- `from_substring(Σ, p, contains)` (default `must_be_suffix=False`), for **every** pattern —
+self-overlapping ones, the empty one, patterns with symbols outside `Σ`: the KMP table is
+built without error and the result is a valid complete DFA accepting exactly the words over
+`Σ` that contain `p` as a contiguous substring (or exactly those that do not, when
+`contains = False`). -/
+theorem C15_from_substring (syms p : List α) (contains : Bool) :
+    Builds (fromSubstring syms p contains false) syms (fun w => p <:+: w ↔ contains = true) := by
+  obtain ⟨T, hk, hT⟩ := KMP.kmpTable_ok p
+  have hsf : false = true → p ≠ [] := fun h => nomatch h
+  refine builds_of syms (KMP.fromSubstring_eq syms p T hT hk contains false hsf)
+    (KMP.kmpDFA_wf syms p T hT contains false hsf) rfl (fun w => ?_)
+  rw [KMP.kmpDFA_accepts syms p T hT contains false hsf w]
+  simp
+
+/-- `from_suffix(Σ, p, contains)` = `from_substring(…, must_be_suffix=True)` for every
+**non-empty** pattern: a valid complete DFA accepting exactly the words over `Σ` that end with
+`p` (or exactly those that do not). -/
+theorem C15_from_suffix (syms p : List α) (hp : p ≠ []) (contains : Bool) :
+    Builds (fromSuffix syms p contains) syms (fun w => p <:+ w ↔ contains = true) ∧
+    Builds (fromSubstring syms p contains true) syms (fun w => p <:+ w ↔ contains = true) := by
+  obtain ⟨T, hk, hT⟩ := KMP.kmpTable_ok p
+  have hsf : true = true → p ≠ [] := fun _ => hp
+  have h : Builds (fromSubstring syms p contains true) syms (fun w => p <:+ w ↔ contains = true) := by
+    refine builds_of syms (KMP.fromSubstring_eq syms p T hT hk contains true hsf)
+      (KMP.kmpDFA_wf syms p T hT contains true hsf) rfl (fun w => ?_)
+    rw [KMP.kmpDFA_accepts syms p T hT contains true hsf w]
+    simp
+  exact ⟨h, h⟩
+
+/-- The KMP invariant itself: in the suffix automaton the state reached on a word `w` over `Σ`
+is the length of the longest prefix of the pattern that is a suffix of `w`. -/
+theorem C15_from_suffix_state (syms p : List α) (hp : p ≠ []) (contains : Bool) :
+    ∀ d, fromSuffix syms p contains = .ok d → ∀ w, Over syms w →
+      ∃ k, d.run (some d.init) w = some (nat k) ∧
+        (k ≤ p.length ∧ p.take k <:+ w) ∧ ∀ j, (j ≤ p.length ∧ p.take j <:+ w) → j ≤ k := by
+  intro d hd w hw
+  obtain ⟨T, hk, hT⟩ := KMP.kmpTable_ok p
+  have hsf : true = true → p ≠ [] := fun _ => hp
+  rw [eq_of_build (KMP.fromSubstring_eq syms p T hT hk contains true hsf) hd]
+  refine ⟨w.foldl (KMP.kmpStepN p T true) 0, ?_, KMP.kmp_inv_suffix p T hT hp w⟩
+  exact (KMP.kmpDFA_run syms p T hT contains true hsf 0 (Nat.zero_le _) w hw).1
+
+/-- Minimality of `from_substring` / `from_suffix` for a pattern over `Σ` (non-empty in suffix
+mode): `|p| + 1` states, all reachable and pairwise distinguishable, hence no equivalent
+complete DFA is smaller. -/
+theorem C15_from_substring_minimal (syms p : List α) (hp : ∀ c ∈ p, c ∈ syms) (contains sf : Bool)
+    (hsf : sf = true → p ≠ []) :
+    ∀ d, fromSubstring syms p contains sf = .ok d →
+      d.allowPartial = false ∧ d.states.length = p.length + 1 ∧ MinimalShape d ∧
+        MinimalAmongComplete d := by
+  intro d hd
+  obtain ⟨T, hk, hT⟩ := KMP.kmpTable_ok p
+  rw [eq_of_build (KMP.fromSubstring_eq syms p T hT hk contains sf hsf) hd]
+  have h := KMP.kmpDFA_minimal syms p T hT hp contains sf hsf
+  refine ⟨rfl, ?_, h, C15_minimal_of_shape _ h⟩
+  show (akeys (KMP.kmpTrans syms p T sf)).length = _
+  unfold KMP.kmpTrans
+  rw [akeys_rangeMap]; simp
+
+/-- **Open finding F10, first half** (the property fails here; see `known_findings.json`):
+with the empty pattern, `from_suffix` raises `IndexError` over every non-empty alphabet instead
+of returning the universal-language DFA. -/
+theorem C15_from_suffix_empty_cex (a : α) (syms : List α) (contains : Bool) :
+    fromSuffix (a :: syms) [] contains = .error (.py .indexError) :=
+  KMP.fromSuffix_empty_error a syms contains
+
+example : Builds (fromSubstring ['a', 'b'] ['a', 'b', 'a', 'b'] true false) ['a', 'b']
+    (fun w => ['a', 'b', 'a', 'b'] <:+: w ↔ true = true) := C15_from_substring _ _ _
+
+example : Builds (fromSuffix ['a', 'b'] ['a', 'a', 'b', 'a', 'a'] false) ['a', 'b']
+    (fun w => ['a', 'a', 'b', 'a', 'a'] <:+ w ↔ false = true) :=
+  (C15_from_suffix _ _ (by decide) _).1
 
 end AV.Props.C15
